@@ -755,7 +755,8 @@ def _xmi_scenarios():
     return {'save-history': functools.partial(JS.save_history_scenarios, fmt='xmi', prop='C08'),
             'subpackages': functools.partial(JS.subpackage_scenarios, fmt='xmi', prop='C08'),
             'two-files': functools.partial(JS.two_file_scenarios, fmt='xmi', prop='C08', scale=0.5),
-            'datatypes': functools.partial(JS.datatype_scenarios, fmt='xmi', prop='C08')}
+            'datatypes': functools.partial(JS.datatype_scenarios, fmt='xmi', prop='C08'),
+            'feature-flags': functools.partial(JS.feature_flag_scenarios, fmt='xmi', prop='C08', scale=0.5)}
 
 
 _run2 = run
@@ -771,7 +772,7 @@ _replay2 = replay
 
 
 def replay(ctx, rep):   # noqa: F811
-    if rep.get('case', {}).get('scenario') in ('save-history', 'subpackages', 'two-files', 'datatypes'):
+    if rep.get('case', {}).get('scenario') in ('save-history', 'subpackages', 'two-files', 'datatypes', 'feature-flags'):
         common.use_repo()
         return common.scenario_replay(ctx, rep, _xmi_scenarios())
     return _replay2(ctx, rep)
